@@ -33,4 +33,4 @@ Definition rd_code (c : rd_case) : nat :=
   else 0.
 
 Definition rd_failing (cs : list rd_case) : list nat :=
-  flat_map (fun c => match rd_code c with 0 => [] | k => [rc_idx c * 8 + k] end) cs.
+  flat_map (fun c => match rd_code c with 0 => [] | k => [rc_idx c * 16 + k] end) cs.
